@@ -20,6 +20,7 @@ import (
 	"fmt"
 	"regexp"
 	"runtime"
+	"runtime/debug"
 	"sort"
 	"strconv"
 	"strings"
@@ -36,7 +37,7 @@ type eng struct{}
 
 func (eng) Name() string { return "batching" }
 func (eng) CoqRequire(mode string) string {
-	return "From RV Require Import Model.Batcher Model.Reorder Corr.Check_batching."
+	return "From Coq Require Import List NArith ZArith. Import ListNotations. From RV Require Import Model.Batcher Model.Reorder Corr.Check_batching."
 }
 func (eng) CoqCaseType(mode string) string { return "Check_batching.case" }
 func (eng) CoqRun(mode string) string      { return "Check_batching.run" }
@@ -67,12 +68,35 @@ func goid() int64 {
 }
 
 var stackBuf = make([]byte, 1<<18)
+var lastDump string // the goroutine dump of the last quiescent point
+
+const timeoutCreator = "created by reduction.dev/reduction/batching.NewReorderFetcher"
+
+// timeoutGoroutines lists the goroutines started by NewReorderFetcher (its time-out loop) in the last quiescent dump:
+// id -> true when the goroutine waits in its select (idle), false when it is inside flush.
+func timeoutGoroutines() map[int64]bool {
+	res := map[int64]bool{}
+	for _, blk := range strings.Split(lastDump, "\n\n") {
+		if !strings.Contains(blk, timeoutCreator) {
+			continue
+		}
+		lines := strings.Split(strings.TrimSpace(blk), "\n")
+		m := goidRe.FindStringSubmatch(lines[0])
+		if m == nil || len(lines) < 2 {
+			continue
+		}
+		id, _ := strconv.ParseInt(m[1], 10, 64)
+		res[id] = strings.Contains(lines[0], "[select") && strings.Contains(lines[1], "batching.NewReorderFetcher")
+	}
+	return res
+}
 
 // waitQuiescent returns when every goroutine except the caller is blocked (channel, mutex, select, idle runtime worker).
 // Nothing in the system under test uses real timers or I/O, so from then on nothing moves until the caller acts.
 func waitQuiescent() error {
 	self := goid()
 	deadline := time.Now().Add(30 * time.Second)
+	confirmed := 0
 	for i := 0; ; i++ {
 		runtime.Gosched()
 		n := runtime.Stack(stackBuf, true)
@@ -81,8 +105,15 @@ func waitQuiescent() error {
 			continue
 		}
 		if allBlocked(stackBuf[:n], self) {
+			// The garbage collector is switched off while cases run (see main), so no goroutine can be parked inside the
+			// runtime on the way to a collection; two consecutive all-blocked dumps are required all the same.
+			if confirmed++; confirmed < 2 {
+				continue
+			}
+			lastDump = string(stackBuf[:n])
 			return nil
 		}
+		confirmed = 0
 		if i%256 == 255 && time.Now().After(deadline) {
 			return fmt.Errorf("no quiescence within 30s:\n%s", stackBuf[:n])
 		}
@@ -361,6 +392,14 @@ func execReorder(c *hx.Case) (*hx.Result, error) {
 	}()
 	timer := &recTimer{}
 	errChan := make(chan error, 1024)
+	if err := waitQuiescent(); err != nil {
+		cancel()
+		return nil, err
+	}
+	before := map[int64]bool{}
+	for id := range timeoutGoroutines() {
+		before[id] = true
+	}
 	rf := batching.NewReorderFetcher(ctx, batching.NewReorderFetcherParams[int, int]{
 		Batcher: batching.NewEventBatcher[int](ctx, batching.EventBatcherParams{MaxDelay: delayOf(delay), MaxSize: maxSize, Timer: timer}),
 		FetchBatch: func(ctx context.Context, events []int) ([]int, error) {
@@ -409,6 +448,20 @@ func execReorder(c *hx.Case) (*hx.Result, error) {
 		}
 	}()
 	<-ready
+	if err := waitQuiescent(); err != nil {
+		cancel()
+		return nil, err
+	}
+	var tGid int64 = -1
+	for id := range timeoutGoroutines() {
+		if !before[id] {
+			tGid = id
+		}
+	}
+	if tGid < 0 {
+		cancel()
+		return nil, fmt.Errorf("cannot locate the time-out goroutine of NewReorderFetcher in the goroutine dump")
+	}
 
 	var steps []string
 	var obsLog []any
@@ -442,6 +495,10 @@ func execReorder(c *hx.Case) (*hx.Result, error) {
 			s.mu.Unlock()
 			if !timer.isArmed() {
 				stim = "SFire false"
+			} else if !timeoutGoroutines()[tGid] {
+				// the time-out goroutine is inside flush (held, or blocked): a second expiry now would race with it
+				tags["r.fire-skipped-timeout-flusher-busy"] = true
+				return nil
 			} else {
 				stim = "SFire true"
 				tags["r.timer-fired"] = true
@@ -456,6 +513,7 @@ func execReorder(c *hx.Case) (*hx.Result, error) {
 			s.mu.Unlock()
 			stim = "SHoldT"
 		case "release":
+			s.holdA, s.holdT = false, false // also disarms gates nobody has reached
 			if s.heldA {
 				close(s.relA)
 				s.heldA = false
@@ -815,7 +873,14 @@ func (eng) Generate(mode, tier string, r *hx.Rand) []*hx.Case {
 	return cs
 }
 
+var executed int
+
 func (eng) Execute(mode string, c *hx.Case) (*hx.Result, error) {
+	// Collections happen only here, between cases, when no goroutine of a case is running: a goroutine that starts a collection
+	// parks inside the runtime (worldsema), which a goroutine dump cannot tell from being blocked.
+	if executed++; executed%20 == 0 {
+		runtime.GC()
+	}
 	kind, _ := c.Params["kind"].(string)
 	switch kind {
 	case "batcher":
@@ -828,4 +893,7 @@ func (eng) Execute(mode string, c *hx.Case) (*hx.Result, error) {
 	return nil, fmt.Errorf("unknown kind %q", kind)
 }
 
-func main() { hx.Main(eng{}) }
+func main() {
+	debug.SetGCPercent(-1)
+	hx.Main(eng{})
+}
